@@ -145,7 +145,16 @@ pub fn vb(v: &Value) -> bool {
 /// dyadic [n,k] -> n / 2^k
 pub fn dy(v: &Value) -> f64 {
     let a = va(v);
-    vi(&a[0]) as f64 / (1u64 << vu(&a[1])) as f64
+    let k = vi(&a[1]);
+    if k < 0 {
+        // decimal fraction n / 10^(-k): both operands are exact doubles, IEEE division rounds correctly, so this is the
+        // double nearest to the decimal text (checked against str::parse below)
+        let v = vi(&a[0]) as f64 / 10f64.powi(-k as i32);
+        let txt = format!("{}e{}", vi(&a[0]), k);
+        debug_assert_eq!(txt.parse::<f64>().ok(), Some(v));
+        return v;
+    }
+    vi(&a[0]) as f64 / (1u64 << k as u64) as f64
 }
 
 pub const SENTINEL_BITS: u64 = 0x7ff8_dead_beef_0001;
